@@ -638,9 +638,54 @@ theorem scriptGo_end (st : SS) (t : Tokenizer) (ok : Ok t) (hs : t.rawTag = html
          · intro hn
            first
            | exact absurd hn (by decide)
-           | exact lt2_of_read (by assumption) (p1 rfl)))
-  all_goals trace_state
-  all_goals sorry
+           | exact lt2_of_read (by assumption) (p1 (by first | trivial | rfl))))
+  -- read_script_data_end_tag_open / read_script_data_escaped_end_tag_open: the return points
+  case case8 | case33 =>
+    rename_i t _ hor
+    by_cases he : t.readRawEndTag.1.err = true
+    · exact Or.inl he
+    · have htrue : t.readRawEndTag.2 = true := by simpa [he] using hor
+      exact Or.inr (rawEndTag_atLt t ok (p2 trivial) (by rw [hs]; exact script_letters) htrue)
+  case case9 | case34 | case58 =>
+    have ro := readRawEndTag_ok _ ok (p2 trivial).1 (by rw [hs]; exact script_letters)
+    apply_assumption
+    · exact ro.1
+    · rw [ro.2.1]; exact hs
+    · intro hn; exact absurd hn (by decide)
+    · intro hn; exact absurd hn (by decide)
+  case case36 =>
+    have la := dblEscLoop_adv _ htmlDoubleEscapePat ok
+    apply_assumption
+    · exact la.ok
+    · rw [la.rawTag]; exact hs
+    · intro hn; exact absurd hn (by decide)
+    · intro hn; exact absurd hn (by decide)
+  case case38 =>
+    have la := dblEscLoop_adv _ htmlDoubleEscapePat ok
+    apply_assumption
+    · exact (readByte_adv la.ok).ok
+    · rw [(readByte_adv la.ok).rawTag, la.rawTag]; exact hs
+    · intro hn; exact absurd hn (by decide)
+    · intro hn; exact absurd hn (by decide)
+  case case39 =>
+    have la := dblEscLoop_adv _ htmlDoubleEscapePat ok
+    apply_assumption
+    · exact (read_unread_adv la.ok (by assumption)).ok
+    · rw [(read_unread_adv la.ok (by assumption)).rawTag, la.rawTag]; exact hs
+    · intro hn; exact absurd hn (by decide)
+    · intro hn; exact absurd hn (by decide)
+  case case56 =>
+    rename_i t _ htrue ih
+    have ro := readRawEndTag_ok t ok (p2 trivial).1 (by rw [hs]; exact script_letters)
+    have hlen : t.rawTag.length = 6 := by rw [hs]; rfl
+    have h3 := ro.2.2.2 htrue
+    refine ih ⟨?_, ro.1.panic, ro.1.hang, ro.1.utf8⟩ (by
+      show t.readRawEndTag.1.rawTag = htmlScript; rw [ro.2.1]; exact hs) (fun hn => absurd hn (by decide))
+      (fun hn => absurd hn (by decide))
+    show t.readRawEndTag.1.rawE + htmlScriptEndTagLen ≤ t.readRawEndTag.1.buf.size
+    rw [ro.2.2.1]
+    simp only [htmlScriptEndTagLen]
+    omega
 
 end Tokenizer
 end Rio.Html
